@@ -416,6 +416,10 @@ pub fn sum_simd(array: &dyn Array) -> Result<ScalarValue> {
                 }
             }
 
+            // No non-NULL element: the sum is NULL, as arrow::compute::sum says.
+            if array.null_count() == array.len() {
+                return Ok(ScalarValue::Int64(None));
+            }
             Ok(ScalarValue::Int64(Some(sum)))
         }
         DataType::Float64 => {
@@ -431,6 +435,9 @@ pub fn sum_simd(array: &dyn Array) -> Result<ScalarValue> {
                 }
             }
 
+            if array.null_count() == array.len() {
+                return Ok(ScalarValue::Float64(None));
+            }
             Ok(ScalarValue::Float64(Some(sum)))
         }
         _ => Err(QueryError::Execution(format!(
